@@ -859,6 +859,18 @@ mod websocket;
 
 pub mod test_util;
 
+/// Verification hook (only with `--cfg dropshot_verif`): re-exports the
+/// router's value types so an external checker can name and match them.
+#[cfg(dropshot_verif)]
+#[doc(hidden)]
+pub mod verif_hooks {
+    pub use crate::router::HttpRouter;
+    pub use crate::router::InputPath;
+    pub use crate::router::RouterLookupResult;
+    pub use crate::router::VariableSet;
+    pub use crate::router::VariableValue;
+}
+
 #[macro_use]
 extern crate slog;
 
